@@ -16,6 +16,7 @@ import asyncio
 import json
 import os
 import random
+from datetime import timedelta as td
 
 from .. import rt, vloop
 from ..common import Check, Diff, Model
@@ -420,6 +421,142 @@ def model_consts() -> list[int]:
     return [int(x) for x in out.split("\t")[1:]]
 
 
+# ---------------------------------------------------------------------------------------------
+# avoidance of the controllers' sync cycles (the wrapper between the duty-cycle limiter and the write)
+
+SYNC_SRCS = ("01:145038", "01:223036", "01:078710", "01:181818")
+
+
+def gen_sync_events(rnd: random.Random) -> list:
+    """[("R", t_us, src index, countdown in 0.1 s) | ("W", t_us)], times ascending; writes are far enough apart for
+    the limiter and the inter-write gap to stay out of it, and no announcement arrives while a write may be waiting"""
+    evs = []
+    t = 0
+    for _ in range(rnd.randint(1, 5)):
+        # a few announcements ...
+        for _ in range(rnd.randint(0, 4)):
+            t += rnd.choice((1_000, 20_000, 500_000, 3_000_000))
+            evs.append(("R", t, rnd.randrange(len(SYNC_SRCS)), rnd.choice((0, 0, 1, 2, 5, 10, 30, 1300, 1800))))
+        # ... then a write placed around the edges of a remembered window (or anywhere, or long after them all)
+        syncs = [tt + cd * 100_000 for k, tt, _, cd in [e for e in evs if e[0] == "R"]]
+        t += 600_000
+        if syncs and rnd.random() < 0.8:
+            s0 = rnd.choice(syncs)
+            cand = s0 - rnd.choice((108_801, 108_800, 108_799, 100_000, 60_000, 18_001, 18_000, 8_001, 8_000, 7_999, 0, -5_000, -3_000_000))
+            t = max(t, cand)
+        else:
+            t += rnd.randrange(0, 4_000_000)
+        evs.append(("W", t))
+        t += 1_500_000
+    return evs
+
+
+async def sync_episode(loop, evs) -> dict:
+    from types import SimpleNamespace
+
+    from ramses_tx.protocol import protocol_factory
+
+    from .. import gwrig
+
+    gwrig.install_clock(loop)
+    rig = SimpleNamespace(loop=loop, gwy_id="18:006402", responder=None, _pty=None)
+    proto = protocol_factory(lambda m: None, disable_sending=False)
+    tr = await gwrig.make_port_transport(rig, proto)
+    await asyncio.sleep(3.0)
+    tr.written.clear()
+    t0 = round(loop.time() * 1e6) / 1e6 + 1.0
+    errors = []
+
+    def heard(t_us, src, cd):
+        fr = f" I --- {SYNC_SRCS[src]} --:------ {SYNC_SRCS[src]} 1F09 003 FF{cd:04X}"
+        tr.inject_at(gwrig.BASE + td(seconds=t0) + td(microseconds=t_us), fr)
+
+    async def offer(i):
+        try:
+            await tr.write_frame(f"RQ --- 18:000730 01:145038 --:------ 0004 002 {i:02X}00")
+        except Exception as e:  # noqa: BLE001
+            errors.append(repr(e))
+
+    tasks = []
+    n_w = 0
+    for e in evs:
+        if e[0] == "R":
+            loop.call_at(t0 + e[1] / 1e6, heard, e[1], e[2], e[3])
+        else:
+            loop.call_at(t0 + e[1] / 1e6, lambda i=n_w: tasks.append(loop.create_task(offer(i))))
+            n_w += 1
+    await asyncio.sleep(evs[-1][1] / 1e6 + 10.0)
+    pending = [t for t in tasks if not t.done()]
+    for t in pending:
+        t.cancel()
+    writes = [(round((t - t0) * 1e6), f) for t, f in tr.written]
+    tr.close()
+    import os as _os
+
+    for fd in rig._pty or ():
+        try:
+            _os.close(fd)
+        except OSError:
+            pass
+    await asyncio.sleep(0)
+    return {"writes": writes, "errors": errors, "blocked": len(pending), "loop_errors": list(loop.errors)}
+
+
+def run_sync(chk: Check, D: Diff, evs) -> None:
+    async def body(loop):
+        return await sync_episode(loop, evs)
+
+    res, _ = vloop.run(body)
+    chk.evaluations += 1
+    chk.nontrivial.add(("sync", tuple(evs)))
+    rep = {"op": "sync", "events": evs}
+    offered = [e[1] for e in evs if e[0] == "W"]
+    got = {int(f[46:48], 16): t for t, f in res["writes"]}
+    if res["blocked"] or len(got) != len(offered):
+        chk.violation("c11.sync.never_written", f"{res['blocked']} write(s) still held back 10 s after the last event: offered at {offered}, written {sorted(got.items())}", rep)
+    if res["errors"] or res["loop_errors"]:
+        chk.violation("c11.sync.exception", f"write_frame raised: {(res['errors'] or res['loop_errors'])[:2]}", rep)
+    # only delays, and by a bounded time: three remembered announcements hold a write for 33 polls + the long wait at most
+    for i, t in got.items():
+        if not offered[i] - 2 <= t <= offered[i] + 33 * 10_000 + 84_000 + 50:
+            chk.violation("c11.sync.delay", f"write {i} offered at {offered[i]} us was written at {t} us", rep)
+    line = ";".join(f"R:{e[1]}:{e[2]}:{e[1] + e[3] * 100_000}" if e[0] == "R" else f"W:{e[1]}" for e in evs)
+    # the model's answer per write is exit:polls; a single poll is the float knife-edge of `elapsed > SYNC_WAIT_SHORT`
+    D.add("sync.run", [line], "sync", meta={"got": got, "offered": offered, "rep": rep})
+
+
+def score_sync_model(chk: Check, D: Diff) -> None:
+    """Compare the write instants with the model's (done here rather than by text equality: see run_sync)."""
+    keep_r, keep_i, keep_m = [], [], []
+    todo = []
+    for r, i, m in zip(D.reqs, D.impl, D.meta):
+        if i == "sync":
+            todo.append((r, m))
+        else:
+            keep_r.append(r), keep_i.append(i), keep_m.append(m)
+    D.reqs, D.impl, D.meta = keep_r, keep_i, keep_m
+    if not todo:
+        return
+    outs = Model().run([r for r, _ in todo])
+    for (r, m), out in zip(todo, outs):
+        parts = out.split("\t")
+        if parts[0] != "ok":
+            chk.divergence("sync.run", m["rep"], "writes", out[:200])
+            continue
+        short, long_ = (int(x) for x in parts[2].split(",")[:2])
+        for k, cell in enumerate(parts[1].split(",") if parts[1] else []):
+            t = m["got"].get(k)
+            if cell == "never":
+                if t is not None:
+                    chk.divergence("sync.run", m["rep"], f"write {k} at {t}", "never (model)")
+                continue
+            ex, polls = (int(x) for x in cell.split(":"))
+            want = {ex} if polls == 0 else {ex, ex + long_} if polls == 1 else {ex + long_}
+            if t is None or not any(abs(t - w) <= 3 for w in want):
+                chk.divergence("sync.run", m["rep"], f"write {k} (offered {m['offered'][k]}) at {t}", f"model: {sorted(want)} ({polls} polls)")
+    chk.extra["model_ops_compared"] = chk.extra.get("model_ops_compared", 0) + len(todo)
+
+
 def run_port(chk: Check, D: Diff, pattern, rnd, consts) -> None:
     async def body(loop):
         return await port_episode(loop, pattern, rnd)
@@ -452,7 +589,8 @@ def run(chk: Check) -> None:
         "seeded arrival patterns (bursts up to 160/400 frames, steady streams above/below the limit, idle gaps of 10-600 s, "
         "2-4 interleaved callers, drain-then-small, mixed), payloads 1-48 bytes, against the real PortTransport (pty) and the real "
         "MqttTransport (stub client) under virtual time; the window bound is evaluated on every window that starts and ends at "
-        "a write; non-trivial = distinct pattern"
+        "a write; sync-cycle avoidance: I|1F09 announcements (countdowns 0-180 s, up to 4 controllers) and writes placed on the edges "
+        "of their windows, write instants compared with the model's; non-trivial = distinct pattern"
     )
     n_port = 400 if thorough else 70
     n_mqtt = 300 if thorough else 60
@@ -478,6 +616,19 @@ def run(chk: Check) -> None:
         p_forced = rnd.choice((0.0, 0.0, 0.1, 0.5))
         forced = [rnd.random() < p_forced for _ in pat]
         run_mqtt(chk, pat, forced, rnd, consts)
+    # sync-cycle avoidance: announcements heard and writes offered around their windows (a zero countdown, an announcement
+    # whose time has passed, three controllers at once)
+    sync_corpus = [
+        [("R", 1000, 0, 0), ("W", 601_000)],
+        [("R", 1000, 0, 2), ("W", 95_000)],
+        [("R", 1000, 0, 10), ("R", 2000, 1, 10), ("R", 3000, 2, 11), ("R", 4000, 3, 12), ("W", 950_000)],
+        [("R", 1000, 0, 1), ("W", 5_000_000), ("W", 9_000_000)],
+    ]
+    for evs in sync_corpus:
+        run_sync(chk, D, evs)
+    for _ in range(300 if thorough else 40):
+        run_sync(chk, D, gen_sync_events(rnd))
+    score_sync_model(chk, D)
     chk.sample({"pattern": corpus[1][:3] + ["..."], "what": "30 long frames then 3 short ones 1 ms later"})
     D.run()
     chk.assumptions.append("asyncio timers fire in deadline order and a writer whose wait ended runs before an offer made at a later instant "
@@ -494,6 +645,9 @@ def replay(chk: Check, path: str) -> int:
         run_port(chk, D, [tuple(x) for x in r["pattern"]], rnd, consts)
     elif r.get("op") == "mqtt":
         run_mqtt(chk, [tuple(x) for x in r["pattern"]], r["forced"], rnd, consts)
+    elif r.get("op") == "sync":
+        run_sync(chk, D, [tuple(x) for x in r["events"]])
+        score_sync_model(chk, D)
     else:
         run(chk)
     return chk.finish()
